@@ -89,6 +89,11 @@ def fetch_schema_locations(source: Union['XMLResource', XMLSourceType],
         raise XMLSchemaValueError("provided arguments don't contain any schema location hint")
 
     namespace = resource.namespace
+    if base_url is None:
+        # The location hints are relative to the XML source: without an explicit
+        # base URL the sandbox is the directory of the source, not of each hint.
+        base_url = resource.base_url
+
     for ns, location in sorted(locations, key=lambda x: x[0] != namespace):
         try:
             resource = XMLResource(location, base_url, allow, defuse, timeout,
